@@ -41,6 +41,22 @@ CLAIMED = {
             BASE_NOTE + " The codec layer is verified over the token view of io (ensures@tok), an abstraction of io's byte-level contracts justified by the C01 lemmas (trusted meta-argument). "
             "Not covered: CreatePack/ClosePack through sync.Pool, UdpActiveStatsPack (text joined/split by strings/strconv), the password-masking clause (strings/maps: outside the verifier), transaction-start length caps.",
             TECH),
+    "C08": ("proof",
+            "Round-trip harnesses (derived from the Write ASTs, frozen) for every profile step type and the transaction record over the token view of io: decode(encode(s)) consumes exactly, re-encodes to the same token stream "
+            "and restores every field under the version/flag gates Write uses; tagged form: CreateStep(tag) has the step's own type for every tag a step reports, WriteStep/ReadStep agree; step sequences "
+            "(ToBytesStep/ToSteps) by loop invariants: same length, same order, element-wise equal; skip-ahead contracts: a reader positioned after step k is positioned at step k+1 (self-delimiting).",
+            "DESIGN.md §4 C08",
+            BASE_NOTE + " Token view of io assumed (abstraction of C01's byte-level contracts). Trusted value/hmap models as in C02. Two genuine defects of TxRecord's custom-field section are recorded as known findings.",
+            TECH),
+    "C12": ("proof",
+            "Representation invariant (chains hold exactly the stored entries of their bucket, keys pairwise distinct, count == number of stored keys via a ghost bijection) and a ghost map view for IntIntMap, IntKeyMap, IntSet, StringSet; "
+            "every public operation is specified over the WHOLE view (result, previous value, size, other keys unchanged): Get, ContainsKey, ContainsValue, Put, Add, AddIfExist, Remove, Clear, PutAll; rehash proved (not trusted) for all four; "
+            "enumerators: the cursor determines the set still to come, each Next removes exactly the returned element, HasMoreElements == (seen < count), KeyArray returns every key exactly once; "
+            "IntIntMap ToBytes/ToObject round trip in the token view. Histories of any length by induction over the invariant; short-history harnesses run on the real code too.",
+            "DESIGN.md §5 C12",
+            BASE_NOTE + " Assumed: count < 2^61; callers do not hold the map's lock; float-derived thresholds are arbitrary (every Put is proved with and without growth); string == is value identity; hash.Hash for StringSet through its spec fold. "
+            "Not covered: IntIntMap.Sort, Clone/HashCode/ToString of entries, ValueArray multiset equality. Three genuine deviations from the set/map model are known findings.",
+            TECH),
     "C10": ("proof",
             "Lock discipline as ghost state held(mutex): for every exported method of every hash map/set, the linked list and both request queues (enumerated from go/types) "
             "govc proves Lock() is only called when not held (sync.Mutex is not re-entrant: self-deadlock), every access to a field written under the lock happens while it is held "
